@@ -97,7 +97,7 @@ TermSyms(pt) == IF pt.o.nul THEN {SNUL} ELSE IF pt.o.crlf THEN {SCR, SLF} ELSE {
 \* in line mode a "line" may contain a bare CR under --crlf (only CR LF terminates)
 Alpha(pt) == ToSet(pt.alpha)
 LineAlphabet(pt) == Alpha(pt) \ (IF pt.o.nul THEN {SNUL} ELSE {SLF})
-Bad(pt) == ToSet(pt.nonmatching) \cup (IF pt.o.nul THEN {SNUL} ELSE {SLF})
+Bad(pt) == ToSet(pt.nonmatching) \cup TermSyms(pt)
 HasLits(pt) == pt.haslits
 Lits(pt) == pt.lits
 
